@@ -501,7 +501,9 @@ pub fn run(kv: &Args) -> i32 {
             let tag = format!("case {case} msg1-point-replaced[{p}.{side}]");
             let sg = cx.check_send(&tag, &s_s, &sid, &m);
             let rg = cx.check_recv_process(&tag, &t_r, &sid, &sg.msg2);
-            if sg.verdict == "ok" && rg.verdict == "ok" {
+            // (a replacement that leaves the bytes as they were -- the degenerate tapes already put the identity there -- is
+            // the honest exchange, not a substitution)
+            if m != msg1 && sg.verdict == "ok" && rg.verdict == "ok" {
                 // untouched instances still deliver the chosen key; the touched one delivers neither
                 for i in 0..N {
                     let c = bit(&rg.bits, i) as usize;
